@@ -97,6 +97,12 @@ fn corpus() -> Vec<Edge> {
         edge("underscore-only-field-pascal", "#[typeshare]\n#[serde(rename_all = \"PascalCase\")]\npub struct A { pub _: u8 }\n"),
         edge("non-ascii-variant-rename-all", "#[typeshare]\n#[serde(rename_all = \"camelCase\")]\npub enum E { Éa, Bé }\n"),
         edge("underscore-variant", "#[typeshare]\n#[serde(rename_all = \"camelCase\", tag = \"t\", content = \"c\")]\npub enum E { __(u8), _A }\n"),
+        edge("tuple-struct-only-field-skipped", "#[typeshare]\npub struct Tag(#[serde(skip)] std::marker::PhantomData<()>);\n#[typeshare]\npub struct Tag2(#[typeshare(skip)] pub u8);\n"),
+        edge("tuple-struct-all-fields-skipped", "#[typeshare]\npub struct Pair(#[typeshare(skip)] u8, #[serde(skip)] String);\n"),
+        edge("tuple-struct-one-kept-one-skipped", "#[typeshare]\npub struct Id<T>(pub String, #[serde(skip)] std::marker::PhantomData<T>);\n#[typeshare]\npub struct Rev(#[serde(skip)] u8, pub String);\n"),
+        edge("tuple-variant-only-field-skipped", "#[typeshare]\n#[serde(tag = \"t\", content = \"c\")]\npub enum E { A(#[serde(skip)] u8), B(u8), C(#[typeshare(skip)] u8, #[serde(skip)] u8) }\n"),
+        edge("struct-all-named-fields-skipped", "#[typeshare]\npub struct AllGone { #[serde(skip)] pub a: u8, #[typeshare(skip)] pub b: u8 }\n#[typeshare]\n#[serde(tag = \"t\", content = \"c\")]\npub enum F { V { #[serde(skip)] x: u8 }, W }\n"),
+        edge("tuple-struct-field-behind-cfg", "#[typeshare]\npub struct DeviceToken(#[cfg(target_os = \"ios\")] pub String);\n#[typeshare]\npub struct Two(#[cfg(target_os = \"ios\")] pub String, #[cfg(target_os = \"android\")] pub u32);\n"),
         edge("non-ascii-before-acronym", "#[typeshare]\npub struct Benutzer { pub größe_id: u32, pub übung_url: String, pub id_größe: u8, pub é_api_é: u8 }\n#[typeshare]\npub struct GrößeId { pub a: u8 }\n#[typeshare]\n#[serde(tag = \"t\", content = \"c\")]\npub enum ÜbungUrl { ÄpiId(GrößeId), Über { straße_id: u8 } }\n"),
         edge("non-ascii-type-name", "#[typeshare]\npub struct Étoile { pub a: u8 }\n#[typeshare]\n#[serde(tag = \"t\", content = \"c\")]\npub enum Éé { A(Étoile) }\n"),
         edge("const-every-backend", "#[typeshare]\npub const LIMIT: u32 = 7;\n"),
@@ -304,7 +310,9 @@ pub fn run(ctx: &Ctx) -> (Spec, Report) {
         let mut files = vec![SrcFile { path: "edgecrate/src/lib.rs".into(), source: e.source.clone() }];
         files.extend(e.extra.iter().cloned());
         // library driver
-        let lo = run_lib(&files, lang, &cfg, multi, &[]);
+        // edges about cfg-guarded members run with a target list that rejects them
+        let target_os: Vec<String> = if e.class.contains("behind-cfg") { vec!["android".to_string()] } else { vec![] };
+        let lo = run_lib(&files, lang, &cfg, multi, &target_os);
         rep.eval(1);
         rep.count("library_runs", 1);
         rep.cell(format!("edge|{}|{lname}|{mode}|{}", e.class, lo.kind()));
@@ -320,7 +328,10 @@ pub fn run(ctx: &Ctx) -> (Spec, Report) {
         }
         write_tree(&root, &tf);
         let out = if multi { root.join("out") } else { root.join(format!("out.{}", lang.ext())) };
-        let args = cli_args(lang, &cfg, multi, &out, &["src_root"]);
+        let mut args = cli_args(lang, &cfg, multi, &out, &["src_root"]);
+        if !target_os.is_empty() {
+            args.insert(0, format!("--target-os={}", target_os.join(",")));
+        }
         let o = run_bin(BinRun { cli: &cli, args: args.clone(), env: vec![], cwd: &root, strace: None, wall_limit: Duration::from_secs(20) });
         rep.eval(1);
         rep.count("cli_runs", 1);
@@ -708,7 +719,7 @@ pub fn run(ctx: &Ctx) -> (Spec, Report) {
     let spec = Spec {
         level: "exploration",
         rule: format!(
-            "{} hand-written edge classes of the input grammar x 6 languages x single/multi-file through the library pipeline (catch_unwind) and the real binary (exit status, stderr, output presence, CPU time, /proc thread-state diagnosis when the watchdog fires); a file-system fault tree (invalid UTF-8, dangling and cyclic symlinks, directory named *.rs) with and without --follow-links; one valid crate reached through 20 spellings of its path (from inside the crate: `src`, `./src`, `.`; from inside src; through `..`; trailing slash; absolute; a crate itself named src) x 5 language/mode cells; {} generated programs with hostile type forms and the mutated snapshot corpus through the library; distinct = (workload, class, language, mode, outcome kind)",
+            "{} hand-written edge classes of the input grammar x 6 languages (Go with and without an uppercase_acronyms table) x single/multi-file through the library pipeline (catch_unwind) and the real binary (exit status, stderr, output presence, CPU time, /proc thread-state diagnosis when the watchdog fires); a file-system fault tree (invalid UTF-8, dangling and cyclic symlinks, directory named *.rs) with and without --follow-links; one valid crate reached through 20 spellings of its path (from inside the crate: `src`, `./src`, `.`; from inside src; through `..`; trailing slash; absolute; a crate itself named src) x 5 language/mode cells; {} generated programs with hostile type forms and the mutated snapshot corpus through the library; distinct = (workload, class, language, mode, outcome kind)",
             corp.len(),
             n_lib
         ),
